@@ -1,8 +1,11 @@
 (* C29 — Entries committed by a leader survive every later leader.
    Pinned statements only; proofs in theories/RaftProofs.v; model theories/Raft.v.
 
-   FULL STATEMENT (false of the faithful model):
-     forall size evs, leader_completeness (c_hist (run size evs))
+   `rv : raftrev` is the revision of the election code (Raft.v; `rr_pinned` before, `rr_fixed` after the two
+   election repairs of C27); the check compares the code with the model of the revision found in the source tree.
+
+   FULL STATEMENT (false of the faithful model of every revision):
+     forall size evs, leader_completeness (c_hist (run rv size evs))
    where the ghost history records `GCommit i true t idx e` when leader i (term t) commits index idx holding e
    and `GLeader j t' log` when j becomes leader holding `log`; leader_completeness says every GLeader that
    comes after a leader's GCommit has `log_at log idx = e`.
@@ -15,30 +18,31 @@ From Agdb Require Import Raft RaftWitness RaftProofs.
 Import ListNotations.
 Open Scope N_scope.
 
-(* refuted: corpus/C29/old_term_commit.txt (3 nodes) *)
-Theorem C29_refuted : ~ (forall size evs, leader_completeness (c_hist (run size evs))).
+(* refuted, every revision: corpus/C29/old_term_commit.txt (3 nodes) *)
+Theorem C29_refuted : forall rv, ~ (forall size evs, leader_completeness (c_hist (run rv size evs))).
 Proof. exact C29_refuted. Qed.
 Print Assumptions C29_refuted.
 
-(* three independent causes, each in a history with one leader per term where no other class occurs:
+(* independent causes, each in a history with one leader per term where no other class occurs.  Every revision:
    the leader commits an entry of an older term by counting replicas (and the vote rule compares index, term and
    commit separately) *)
-Theorem C29_refuted_old_term_commit :
-  exists size evs, let h := c_hist (run size evs) in
+Theorem C29_refuted_old_term_commit : forall rv,
+  exists size evs, let h := c_hist (run rv size evs) in
     election_safety h /\ classes h = (false, false, false, true, false) /\ ~ leader_completeness h.
 Proof. exact C29_refuted_old_term_commit. Qed.
 Print Assumptions C29_refuted_old_term_commit.
 
-(* an Append is acknowledged by a follower whose log differs from the leader's below the appended entry *)
-Theorem C29_refuted_ack_diverged :
-  exists size evs, let h := c_hist (run size evs) in
+(* every revision: an Append is acknowledged by a follower whose log differs from the leader's below the appended entry *)
+Theorem C29_refuted_ack_diverged : forall rv,
+  exists size evs, let h := c_hist (run rv size evs) in
     election_safety h /\ classes h = (false, false, true, false, false) /\ ~ leader_completeness h.
 Proof. exact C29_refuted_ack_diverged. Qed.
 Print Assumptions C29_refuted_ack_diverged.
 
-(* a voter keeps its old term after voting and acknowledges the old leader's Append *)
+(* before the election repairs only (the class cannot occur after them, `C27_fixed_no_election_classes`):
+   a voter keeps its old term after voting and acknowledges the old leader's Append *)
 Theorem C29_refuted_ack_below_vote :
-  exists size evs, let h := c_hist (run size evs) in
+  exists size evs, let h := c_hist (run rr_pinned size evs) in
     election_safety h /\ classes h = (false, false, false, false, true) /\ ~ leader_completeness h.
 Proof. exact C29_refuted_ack_below_vote. Qed.
 Print Assumptions C29_refuted_ack_below_vote.
